@@ -462,6 +462,33 @@ def drive_oneoff(mon: Monitor, rng: random.Random, n: int) -> None:
     mon.obs["one_off_crs_conversions"] += n
 
 
+GEOGRAPHIC = ["EPSG:4326", "OGC:CRS84", "EPSG:4269", "EPSG:4258", "+proj=longlat +ellps=GRS80 +no_defs",
+              # rotated-pole grids of regional climate models (CORDEX EUR-11, a generic one): geographic CRSs on the same datum whose coordinates are NOT lon/lat
+              "+proj=ob_tran +o_proj=longlat +o_lon_p=0 +o_lat_p=39.25 +lon_0=18 +datum=WGS84 +no_defs", "+proj=ob_tran +o_proj=longlat +o_lon_p=0 +o_lat_p=60 +lon_0=-170 +ellps=WGS84 +no_defs"]
+
+
+def drive_geographic_pairs(mon: Monitor, rng: random.Random, n: int) -> None:
+    """Geographic to geographic: same datum never implies same coordinates (every call is judged vertex by vertex by post_to_crs)."""
+    import pyproj
+    from odc.geo import geom as G
+
+    if len(GEOGRAPHIC) == 7:
+        # the same rotated pole the way netCDF readers build it (CF grid mapping; WGS 84 ensemble datum like EPSG:4326) and a plain-datum lon/lat to pair with the PROJ spelling
+        GEOGRAPHIC.append(pyproj.CRS.from_cf({"grid_mapping_name": "rotated_latitude_longitude", "grid_north_pole_latitude": 39.25, "grid_north_pole_longitude": -162.0}).to_wkt())
+        GEOGRAPHIC.append("+proj=longlat +datum=WGS84 +no_defs")
+
+    for _ in range(n):
+        a, b = rng.sample(GEOGRAPHIC, 2)
+        lon, lat = rng.uniform(-20, 40), rng.uniform(30, 65)
+        shp_ll = make_shape(rng, rng.choice(KINDS[:9]), (lon, lat), rng.choice([0.05, 0.5, 2.0]))
+        g0 = G.Geometry(shp_ll, "EPSG:4326")
+        g1, exc = (g0, None) if a == "EPSG:4326" else call(g0.to_crs, a)
+        if exc is None and not g1.is_empty:
+            g2, exc = call(g1.to_crs, b)
+            if exc is None and rng.random() < 0.5:
+                call(g2.to_crs, a)
+
+
 def drive_indirect(mon: Monitor, rng: random.Random, n: int) -> None:
     before = dict(calls)
     for _ in range(n):
@@ -487,6 +514,7 @@ def run(mon: Monitor, tier: str, seed: int, shard: int, nshards: int) -> None:
         drive_to_crs(mon, rng, 2500 if q else 40000)
         drive_lookalikes(mon, rng, 150 if q else 2500)
         drive_oneoff(mon, rng, 260 if q else 1500)
+        drive_geographic_pairs(mon, rng, 120 if q else 2000)
         drive_indirect(mon, rng, 40 if q else 500)
         for pt, n in [("densify", 2000), ("Geometry.segmented", 2000), ("Geometry.to_crs", 1000), ("roundtrip", 200), ("densify|on-axis|vertical", 20), ("densify|far", 200),
                       ("densify|near-axis", 50), ("Geometry.to_crs|same-crs", 20), ("Geometry.to_crs|no-crs", 10), ("roundtrip|datum-shift", 20), ("roundtrip|same-datum", 100),
